@@ -1,5 +1,5 @@
 From Coq Require Import ExtrOcamlBasic.
-Require Import CV.Model.PyPrelude CV.Spec.BV CV.Gen.BvConcrete CV.Model.Ast CV.Model.Build CV.Model.Solve CV.Model.Rewrite CV.Model.Frontend CV.Model.Numeral CV.Model.Annot CV.Model.HashCons CV.Model.Pickle CV.Model.Z3Stack CV.Model.Str CV.Model.Tls CV.Model.AbsInt CV.Model.Balance CV.Model.Replace CV.Model.Track.
+Require Import CV.Model.PyPrelude CV.Spec.BV CV.Gen.BvConcrete CV.Model.Ast CV.Model.Build CV.Model.Solve CV.Model.Rewrite CV.Model.Frontend CV.Model.Numeral CV.Model.Annot CV.Model.HashCons CV.Model.Pickle CV.Model.Z3Stack CV.Model.Str CV.Model.Tls CV.Model.AbsInt CV.Model.Balance CV.Model.Replace CV.Model.Track CV.Model.CompCache.
 Extraction Language OCaml.
 Extraction "bvmodel.ml" Build.mk Ast.eval Ast.eval_op Ast.symbolic Ast.depth Ast.elen
   bvv_signed bvv___invert__ bvv___neg__
@@ -11,5 +11,5 @@ Extraction "bvmodel.ml" Build.mk Ast.eval Ast.eval_op Ast.symbolic Ast.depth Ast
   bv_RotateLeft bv_RotateRight bv_Reverse bv_ZeroExt bv_SignExt bv_Extract bv_Concat
   BV.bvreverse Solve.extrema Solve.enumerate Solve.cached_then_solve Solve.bounds
   Rewrite.subst Rewrite.replace Rewrite.canonicalize Rewrite.ite_cases Rewrite.ite_dict Rewrite.reverse_ite_cases
-  Rewrite.chop Rewrite.get_bytes Rewrite.excavate Ast.fvars AbsInt.vsa_convert AbsInt.vsa_aeval Track.track_add Track.core_of Replace.radd Replace.rquery Replace.rblank Balance.simple_bounds Balance.in_bound Balance.nonstrict Balance.zeroext_rule Balance.reverse_op Balance.cmp Balance.handle_comparison
+  Rewrite.chop Rewrite.get_bytes Rewrite.excavate Ast.fvars AbsInt.vsa_convert AbsInt.vsa_aeval CompCache.remove_cached Track.track_add Track.core_of Replace.radd Replace.rquery Replace.rblank Balance.simple_bounds Balance.in_bound Balance.nonstrict Balance.zeroext_rule Balance.reverse_op Balance.cmp Balance.handle_comparison
   Frontend.fe_add Frontend.fe_merge Frontend.fe_merge_anc Frontend.combine_fe Frontend.split_constraints Frontend.split_fe Frontend.blank Frontend.sstep Frontend.sget Numeral.str_to_int Numeral.int_to_str Numeral.digits Numeral.dval Annot.handle_annotations Annot.build Annot.reannotate Annot.unel HashCons.enc_int HashCons.dec_int HashCons.body HashCons.unbody Pickle.check Pickle.exact Pickle.setstate Pickle.getstate Z3Stack.batch_eval Str.substr Str.replace1 Str.strlen Str.contains Str.prefixof Str.suffixof Str.indexof Str.to_int Str.from_int Tls.run.
